@@ -141,6 +141,9 @@ pub enum TyperError {
     /// There are no 64-bit integer types to give a literal with a long suffix
     LongIntegerNotSupported(SourceLocation),
 
+    /// The value of a case label is outside the range of the 32-bit integer types
+    CaseLabelOutOfRange(SourceLocation),
+
     /// A type modifier was used in a context where it is not allowed to be used
     ModifierNotSupported(ast::TypeModifier, SourceLocation, TypePosition),
 
@@ -822,6 +825,11 @@ impl CompileError for TyperExternalError {
             ),
             TyperError::StringNotSupported(loc) => w.write_message(
                 &|f| write!(f, "string may not be used"),
+                *loc,
+                Severity::Error,
+            ),
+            TyperError::CaseLabelOutOfRange(loc) => w.write_message(
+                &|f| write!(f, "case value does not fit in a 32-bit integer"),
                 *loc,
                 Severity::Error,
             ),
